@@ -3,6 +3,7 @@ mod common;
 mod gridmc;
 mod histmc;
 mod procmc;
+mod threadmc;
 mod seqmc;
 
 use common::report::{machinery_failure, Ctx, Tier};
@@ -60,6 +61,7 @@ fn main() {
         "C05" | "C06" | "C14" => gridmc::clientgrid::run(&ctx),
         "C07" => gridmc::boundgrid::run(&ctx),
         "C19" => procmc::run(&ctx),
+        "C15" => threadmc::run(&ctx),
         "C08" | "C09" | "C10" | "C12" | "C13" => histmc::props::run(&ctx),
         "C02" | "C03" | "C04" | "C11" | "C18" => seqmc::props::run(&ctx),
         _ => machinery_failure(&format!("no engine for property {prop}")),
